@@ -54,10 +54,17 @@ func TestC11_NoOrphans(t *testing.T) {
 	rec := stats.For("C11").Meta("exploration",
 		"same histories as C10; after every finished (committed or rolled back) transaction: every blob file is the active blob of a reachable node or named by the id of a live item of an out-of-node store, every non-zero registry slot belongs to a reachable node, no translogs/* and no *.cow files remain; failed commits are covered by the C07 check with the same census; non-trivial = the history updates or removes an out-of-node value, or contains a rollback; distinct by rendered history",
 		"a handle that keeps the id of its already deleted previous blob is by design and not an orphan")
+	knownOrphanValues := stats.Known("C11", "out-of-node-value-blobs-leak")
 	rapid.Check(t, func(t *rapid.T) {
 		h := txh.GenHistory(t, seqGen)
 		e, _ := runSequential(t, h, func(e *txh.Env, i int, models []*txh.Model, res txh.TxnResult) {
 			r := txh.ReadDisk(e.Dir)
+			if ov := r.OrphanValues(); len(ov) > 0 {
+				if !knownOrphanValues {
+					t.Fatalf("after txn %d (%s): %s\n%s", i+1, h.Txns[i], strings.Join(ov, "; "), h.Render())
+				}
+				rec.Exclude("unreferenced value blob of an out-of-node store (known finding)")
+			}
 			if o := r.Orphans(); len(o) > 0 {
 				if len(o) > 6 {
 					o = append(o[:6], "...")
@@ -76,4 +83,40 @@ func TestC11_NoOrphans(t *testing.T) {
 		rec.Case(h.Render(), rewrite || hasRb, labels...)
 		rec.Sample("history", h.Render())
 	})
+}
+
+// TestC11_Known_ValueBlobLeak is the minimal reproduction of the recorded finding: a store that keeps
+// values outside the node (separate segment); add an item, commit; remove it in a second transaction,
+// commit: the item's value blob stays on disk although nothing references it.
+func TestC11_Known_ValueBlobLeak(t *testing.T) {
+	e, err := txh.NewEnv(2)
+	if err != nil {
+		t.Fatalf("%v", err)
+	}
+	defer e.Cleanup()
+	stores := []txh.StoreOpts{{Name: "st0", Slot: 4, Unique: true, Placement: 1}}
+	if err := e.Setup(stores); err != nil {
+		t.Fatalf("HARNESS-ERROR %v", err)
+	}
+	models := []*txh.Model{{Unique: true}}
+	for _, p := range []txh.TxnProg{
+		{Mode: 1, End: "commit", Ops: []txh.Op{{Kind: "add", K: 3, Tag: "a"}}},
+		{Mode: 1, End: "commit", Ops: []txh.Op{{Kind: "remove", K: 3}}},
+	} {
+		var res txh.TxnResult
+		models, res = e.RunTxn(p, stores, models, txh.RunOpts{})
+		if res.OpErr != nil || res.Mismatch != "" || res.CommitErr != nil {
+			t.Fatalf("%v %v %v", res.OpErr, res.Mismatch, res.CommitErr)
+		}
+	}
+	ov := txh.ReadDisk(e.Dir).OrphanValues()
+	if len(ov) == 0 {
+		return
+	}
+	what := "store with values outside the node: add(k) commit; remove(k) commit leaves the item's value blob on disk, referenced by nothing (itemActionTracker.manage schedules the old blob for deletion only while the item says ValueNeedsFetch; items are persisted with the value inline in the node as well, so the flag is false)"
+	if stats.Known("C11", "out-of-node-value-blobs-leak") {
+		stats.For("C11").KnownFinding(what)
+		return
+	}
+	t.Fatalf("%s: %v", what, ov)
 }
